@@ -394,7 +394,12 @@ fn exec_inner(ctx: &Arc<Ctx>, op: &OpSpec, slots: &mut Slots) -> i64 {
 
         "drop_obj" => {
             let object = ctx.objects[op.o - 1].lock().unwrap().take();
-            std::mem::drop(object);
+            if op.then == "unwinding" {
+                // The owner is dropped by a thread that is unwinding from a panic (resume_unwind: no panic hook, thread::panicking() is true in Drop)
+                let _ = catch_unwind(AssertUnwindSafe(move || { let _owner = object; std::panic::resume_unwind(Box::new("unwinding drop")); }));
+            } else {
+                std::mem::drop(object);
+            }
             0
         }
 
